@@ -175,10 +175,46 @@ def _pipe_cases(tier, rng):
         (ta, a), (tb, b) = rng.choice(g), rng.choice(g)
         yield {"src": ta, "dst": tb, "wiring": rng.choice(("direct", "elementwise", "reduction", "reduction-mapped-consumer")),
                "validate": rng.random() < 0.85}
+    # one mapped output with two consumers, one through a reduction and one element-wise, in both listing orders:
+    # every edge is judged on its own
+    for _ in range(n // 3):
+        (ta, a), (tb, b), (tc, c) = rng.choice(g), rng.choice(g), rng.choice(g)
+        if rng.random() < 0.5:
+            tb = ta if ta[0] == "array" else ("array", ta)  # often a compatible reducer
+        if rng.random() < 0.5:
+            tc = ta
+        yield {"src": ta, "dst": tb, "dst2": tc, "wiring": "two-consumers", "order": rng.choice(("reducer-first", "reducer-last")),
+               "validate": True}
 
 
 def _ann(t):
-    return next(a for tt, a in grammar(1) if tt == t)
+    """The annotation object of a term (any depth)."""
+    from pipefunc.typing import Array
+    k = t[0]
+    if k == "atom":
+        return t[1]
+    if k == "any":
+        return Any
+    if k == "typevar":
+        return {"bound-int": TB, "constr-int-str": TC, "free": TU}[t[1]]
+    sub = [_ann(x) for x in t[1:]]
+    if k == "list":
+        return list[sub[0]]
+    if k == "set":
+        return set[sub[0]]
+    if k == "opt":
+        return Optional[sub[0]]
+    if k == "annotated":
+        return Annotated[sub[0], "meta"]
+    if k == "array":
+        return Array[sub[0]]
+    if k == "tuple":
+        return tuple[sub[0], sub[1]]
+    if k == "dict":
+        return dict[sub[0], sub[1]]
+    if k == "union":
+        return Union[sub[0], sub[1]]
+    raise ValueError(t)
 
 
 def _check_pipe(case):
@@ -186,6 +222,9 @@ def _check_pipe(case):
     from pipefunc.typing import Array
     a, b = _ann(case["src"]), _ann(case["dst"])
     wiring = case["wiring"]
+
+    if wiring == "two-consumers":
+        return _check_two_consumers(case)
 
     def producer(x):
         return x
@@ -235,6 +274,42 @@ def _check_pipe(case):
     return []
 
 
+def _check_two_consumers(case):
+    from pipefunc import Pipeline, pipefunc
+    a, b, c = _ann(case["src"]), _ann(case["dst"]), _ann(case["dst2"])
+
+    def producer(x):
+        return x
+
+    def reducer(y):
+        return 1
+
+    def elementwise(y):
+        return 1
+    producer.__annotations__ = {"x": int, "return": a}
+    reducer.__annotations__ = {"y": b, "return": int}
+    elementwise.__annotations__ = {"y": c, "return": int}
+    f = pipefunc(output_name="y", mapspec="x[i] -> y[i]")(producer)
+    r = pipefunc(output_name="total")(reducer)
+    e = pipefunc(output_name="z", mapspec="y[i] -> z[i]")(elementwise)
+    src_red = case["src"] if case["src"][0] == "array" else ("array", case["src"])
+    ok = ref_compat(src_red, case["dst"]) and ref_compat(case["src"], case["dst2"])
+    funcs = [f, r, e] if case["order"] == "reducer-first" else [f, e, r]
+    try:
+        Pipeline(funcs)
+        accepted = True
+    except TypeError:
+        accepted = False
+    except Exception as ex:  # noqa: BLE001
+        return [f"construction raised {type(ex).__name__}: {str(ex)[:120]}"]
+    what = f"{_show(case['src'])} -> reducer {_show(case['dst'])}, element-wise {_show(case['dst2'])} ({case['order']})"
+    if ok and not accepted:
+        return [f"two-consumers: all edges compatible but rejected: {what}"]
+    if not ok and accepted:
+        return [f"two-consumers: an incompatible edge is accepted: {what}"]
+    return []
+
+
 def bounded_checks():
     return [
         ("is_type_compatible-vs-subtyping", Check("is_type_compatible-vs-subtyping", _pair_cases, _check_pairs, RULE,
@@ -242,6 +317,7 @@ def bounded_checks():
         ("pipeline-annotation-validation", Check("pipeline-annotation-validation", _pipe_cases, _check_pipe,
                                                  "2-node pipelines wiring every pair of annotations directly, "
                                                  "element-wise and through a reduction; validate on/off",
-                                                 key=repr, describe=lambda c: {**c, "src": _show(c["src"]),
-                                                                               "dst": _show(c["dst"])}, shards=4)),
+                                                 key=repr, describe=lambda c: {**c, "src": _show(c["src"]), "dst": _show(c["dst"]),
+                                                                     **({"dst2": _show(c["dst2"])} if "dst2" in c else {})},
+                                                 shards=4)),
     ]
